@@ -1309,7 +1309,13 @@ pub fn registry() -> Vec<PropDef> {
                 name: "quiescence",
                 source: Source::Random { strategy: quiescence_strategy, cases: cases_fn!(6000, 120000) },
                 oracle: c06_oracle,
-            }],
+            },
+                Part {
+                    name: "systematic",
+                    source: Source::Systematic { strategy: quiescence_strategy, cases: cases_fn!(20, 12) },
+                    oracle: c06_oracle,
+                },
+            ],
             rule: "threads perform a bounded number of non-blocking sends/receives/clones/conversions and stop without draining; after joining them the controller probes single-threaded: fill to Full, drain every stream, refill (exactly N must be accepted), drain again; compared with the model computed from the recorded history; non-trivial = the probe ran AND calls overlapped AND the ring wrapped",
             assumptions: vec![SC_ASSUME, SAMPLE_ASSUME, MODEL_ASSUME],
         },
@@ -1354,6 +1360,11 @@ pub fn registry() -> Vec<PropDef> {
                     oracle: c14_oracle,
                 },
                 c14_seq_part(),
+                Part {
+                    name: "systematic",
+                    source: Source::Systematic { strategy: tasks_strategy, cases: cases_fn!(20, 12) },
+                    oracle: c14_oracle,
+                },
             ],
             rule: "futures queues, N in {1,2}: Sink and Stream tasks on a deterministic executor (a NotReady task is blocked until Notify::notify), other threads draining through the direct methods or dropping handles; oracle = scheduler stuck state with a parked task that could make progress; sequential part: after every call that makes progress possible for a parked task the task must have been notified; non-trivial (tasks) = some task got NotReady and calls overlapped; (sequential) = some task parked",
             assumptions: vec![SC_ASSUME, SAMPLE_ASSUME],
@@ -1503,6 +1514,11 @@ pub fn registry() -> Vec<PropDef> {
                 Part {
                     name: "sink_race",
                     source: Source::Random { strategy: c13_conc_strategy, cases: cases_fn!(4000, 80000) },
+                    oracle: c13_conc_oracle,
+                },
+                Part {
+                    name: "systematic_sink_race",
+                    source: Source::Systematic { strategy: c13_conc_strategy, cases: cases_fn!(20, 12) },
                     oracle: c13_conc_oracle,
                 },
             ],
